@@ -611,23 +611,26 @@ class DataProviderLinked(DataProvider):
         # into an ndarray of shape (len(global,)
         # as an alternative to the more elegant xarray built-in which is limited to 32 datasets
         # aligned_group_labels = aligned_groups.str.join(dim="dataset").data
-        aligned_group_labels = np.asarray(
-            tuple(
-                "".join(sub_arr.to_numpy().flatten())
-                for _, sub_arr in aligned_groups.groupby("global", squeeze=False)
-            )
-        )
+        aligned_group_labels = [
+            "".join(sub_arr.to_numpy().flatten())
+            for _, sub_arr in aligned_groups.groupby("global", squeeze=False)
+        ]
 
         group_definitions: dict[str, list[str]] = {}
         for i, group_label in enumerate(aligned_group_labels):
-            if group_label not in group_definitions:
-                group_definitions[group_label] = list(
-                    filter(
-                        lambda label: label != "",
-                        aligned_groups.isel({"global": i}).data,
-                    )
+            dataset_labels = list(
+                filter(
+                    lambda label: label != "",
+                    aligned_groups.isel({"global": i}).data,
                 )
-        return aligned_group_labels, group_definitions
+            )
+            # Different groups of datasets can have the same concatenated label
+            # (e.g. 'a' + 'b' and 'ab'), those need to be kept apart.
+            while group_definitions.get(group_label, dataset_labels) != dataset_labels:
+                group_label += "_"
+            aligned_group_labels[i] = group_label
+            group_definitions[group_label] = dataset_labels
+        return np.asarray(aligned_group_labels), group_definitions
 
     def align_weights(self, aligned_global_axes: dict[str, ArrayLike]) -> list[ArrayLike | None]:
         """Align the weights in a dataset group.
